@@ -27,7 +27,7 @@ ASSUMPTIONS = [
     "a step budget (sys.monitoring PY_START events) decides termination; wall-clock is only a watchdog",
 ]
 PLAN = {"quick": dict(programs=500, topologies=1400, depth=3), "thorough": dict(programs=12000, topologies=40000, depth=5)}
-FLOORS = {"quick": {"sequences_checked": 15000, "deferred_nodes_seen": 3000, "equivalences_checked": 3000, "topology_roots": 8000},
+FLOORS = {"quick": {"sequences_checked": 15000, "deferred_nodes_seen": 3000, "equivalences_checked": 3000, "topology_roots": 8000, "same_name_two_module_topologies": 200},
           "thorough": {"sequences_checked": 400000, "deferred_nodes_seen": 80000, "equivalences_checked": 80000, "topology_roots": 200000}}
 STEP_BUDGET = 2_000_000
 
@@ -213,8 +213,17 @@ def run_shard(sh):
         else:
             n, es = topos[i - nprog]
             edges = [(a, b, rng.choice(topo.EDGE_KINDS)) for a, b in es]
-            tp = topo.Topology(n, edges, nested=rng.random() < 0.3, flavour=rng.choice(["dataclass", "dataclass", "namedtuple", "typeddict"]),
-                               tag=f"{sh.shard}_{i}")
+            other = None
+            foreign = []
+            if rng.random() < 0.25:
+                # same-named classes in a second module, reachable from this one (and possibly re-visited there as well)
+                oes = [(a, b, rng.choice(topo.EDGE_KINDS)) for a in range(n) for b in range(n) if rng.random() < 0.4]
+                other = topo.Topology(n, oes, nested=False, flavour="dataclass", tag=f"{sh.shard}_{i}_b")
+                other.build()
+                foreign = [(a, b, rng.choice(topo.EDGE_KINDS)) for a in range(n) for b in range(n) if rng.random() < 0.5] or [(0, 0, "direct")]
+                sh.count("same_name_two_module_topologies")
+            tp = topo.Topology(n, edges, nested=rng.random() < 0.3 and other is None, flavour=rng.choice(["dataclass", "dataclass", "namedtuple", "typeddict"]),
+                               tag=f"{sh.shard}_{i}", other=other, foreign_edges=foreign)
             tp.build()
             try:
                 for label, T in tp.roots():
@@ -226,6 +235,8 @@ def run_shard(sh):
                     sh.sample({"topology": edges, "nested": tp.nested})
             finally:
                 tp.drop()
+                if other is not None:
+                    other.drop()
 
     sh.run_cases(nprog + ntopo, case)
     steps.stop()
